@@ -84,6 +84,23 @@ func (r *Runner) walk() ev {
 			if err := decodeFile(filepath.Join(dir, name), false, &any); err != nil {
 				d["schema_err"] = err.Error()
 			}
+			// which objects the committed index knows (slots), read structurally
+			sidx := []int{}
+			if idx, ok := any["index"].(map[string]interface{}); ok {
+				if ids, ok := idx["object-ids"].(map[string]interface{}); ok {
+					for _, u := range ids {
+						if us, ok := u.(string); ok {
+							if s, known := r.rev[us]; known {
+								sidx = append(sidx, s)
+							} else {
+								sidx = append(sidx, 0)
+							}
+						}
+					}
+				}
+			}
+			sort.Ints(sidx)
+			d["sidx"] = sidx
 			continue
 		}
 		if !strings.HasSuffix(name, suffix) || !e.Type().IsRegular() {
